@@ -201,8 +201,12 @@ def coq_eval_lists(header, terms, name="cases", chunk=400, timeout=900):
     results = [None] * len(files)
 
     def launch(i):
-        return subprocess.Popen(["coqc", "-Q", COQ, "ICV", files[i]], cwd=wd, stdout=subprocess.PIPE,
-                                stderr=subprocess.PIPE, text=True)
+        # outputs go to files: a pipe that fills up (e.g. with warnings) would block coqc for ever
+        so = open(files[i] + ".out", "w")
+        se = open(files[i] + ".err", "w")
+        p = subprocess.Popen(["coqc", "-Q", COQ, "ICV", files[i]], cwd=wd, stdout=so, stderr=se, text=True)
+        p._icv_files = (so, se)
+        return p
     pending = list(range(len(files)))
     running = {}
     t0 = time.time()
@@ -212,7 +216,10 @@ def coq_eval_lists(header, terms, name="cases", chunk=400, timeout=900):
             running[i] = launch(i)
         for i, p in list(running.items()):
             if p.poll() is not None:
-                out, err = p.communicate()
+                for fh in p._icv_files:
+                    fh.close()
+                out = open(files[i] + ".out").read()
+                err = open(files[i] + ".err").read()
                 if p.returncode != 0:
                     for q in running.values():
                         if q.poll() is None:
